@@ -2,6 +2,7 @@ import ScrapliModel.Lemmas.Decode
 import ScrapliModel.Lemmas.Framed
 import ScrapliModel.Props.C08
 import ScrapliModel.Generated.BodiesResponse
+import ScrapliModel.Lemmas.BodiesResponse
 /-!
 # C02 — NETCONF replies decode to exactly the payload, or are explicitly failed
 
@@ -367,5 +368,60 @@ source (`Generated/BodiesResponse.lean`): whatever `Result` held before, it ends
 of the raw result -/
 theorem generated_record1dot0_eq (raw r0 : Bytes) :
     Gen.Bodies.Response.record1dot0 raw r0 = decode10 raw := rfl
+
+set_option linter.unusedSimpArgs false in
+/-- the body of `(*NetconfResponse).record1dot1Chunks` — the cursor loop and the size-header loop —
+as the translator renders it from the current source (`Generated/BodiesResponse.lean`), for every
+raw reply and every fuel of at least `len(raw) + maxChunkSizeCharLen + 2` iterations per loop:
+never indexes out of range, never runs out of fuel, returns `nil` and stores exactly `decode11 raw`
+when the model decodes, and returns the parse error leaving `Result` untouched when the model
+fails. Assumptions of the library table: `strconv.Atoi` = `Go.atoi` (no overflow on a header of at
+most 10 characters), `bytes.TrimSpace/TrimPrefix` = `trimSpace/trimPrefix`. -/
+theorem generated_record1dot1Chunks_eq (fuel : Nat) (raw r0 : Bytes)
+    (hf : raw.length + Gen.Response.maxChunkSizeCharLen + 2 ≤ fuel) :
+    Gen.Bodies.Response.record1dot1Chunks fuel raw r0 =
+      some (match decode11 raw with
+        | .ok res => (none, res)
+        | .error _ => (some "errNetconf1Dot1Error", r0)) := by
+  have hlen := trimSpace_length_le raw
+  unfold Gen.Bodies.Response.record1dot1Chunks decode11 decode11Raw
+  simp only []
+  generalize hd : trimSpace raw = d at hlen
+  cases d with
+  | nil => simp [Go.len, Go.idxOK, Except.map]
+  | cons b t =>
+    have hidx : Go.idxOK (Go.len (b :: t)) 0 = true := Go.idxOK_zero_cons b t
+    have hat : Go.at (b :: t) 0 = b := Go.at_zero_cons b t
+    have hl0 : (Go.len (b :: t) == 0) = false := by simp [Go.len]; omega
+    by_cases hH : b = HASH
+    · subst hH
+      have h35 : (HASH != (35 : UInt8)) = false := rfl
+      have hHH : (HASH != HASH) = false := by simp
+      have := outer_loop fuel raw r0 (HASH :: t) (by omega) (HASH :: t).length 0 fuel ((HASH :: t).length + 1) []
+        (by omega) (by simp) (by simp at hlen ⊢; omega) (by omega)
+      simp only [List.drop_zero, Int.natCast_zero] at this
+      simp only [hidx, hat, hl0, h35, hHH, Bool.not_false, Bool.not_true, Bool.false_or, Bool.or_true, Bool.false_eq_true,
+        if_false]
+      cases hR : decodeLoop Gen.Response.maxChunkSizeCharLen ((HASH :: t).length + 1) (HASH :: t) [] with
+      | ok acc =>
+        rw [hR] at this
+        obtain ⟨c', hL⟩ := this
+        simp [hL, Except.map, finish]
+      | error e =>
+        rw [hR] at this
+        simp only [Expect] at this
+        by_cases he : e = .truncated
+        · simp only [he, if_true] at this
+          obtain ⟨c', j', hL⟩ := this
+          simp [hL, Except.map]
+        · simp only [he, if_false] at this
+          simp [this, Except.map]
+    · have h35 : (b != (35 : UInt8)) = true := by simpa [HASH] using hH
+      have hbH : (b != HASH) = true := by simpa using hH
+      simp [hidx, hat, hl0, h35, hbH, Except.map]
+
+/-- the fuel hypothesis is satisfiable and the statement is not vacuous: one chunk `abc` -/
+example : Gen.Bodies.Response.record1dot1Chunks 40 [35, 51, 10, 97, 98, 99, 10, 35, 35] []
+    = some (none, [97, 98, 99]) := by decide +kernel
 
 end Scrapli.Netconf.C02
